@@ -124,6 +124,7 @@ type Result struct {
 	Invariant   string // first invariant violation, with the step at which it was seen
 	Events      int64  // Stamp() calls
 	LockWaits   int    // times a task had to wait for a sim lock held by another task
+	PreSites    []int32 // yield sites at which a preemption fired (the running task was switched out mid-operation)
 }
 
 // Runtime is the state of one simulated run.
@@ -291,6 +292,7 @@ func Yield(site int32) {
 			r.force = false
 			if r.nextPre != 0 && r.steps >= r.nextPre {
 				r.res.Preempts++
+				r.res.PreSites = append(r.res.PreSites, site)
 				r.preLeft--
 				r.nextPre = 0
 			}
